@@ -5,6 +5,7 @@
 #pragma once
 #include "../sim/kit.h"
 #include <cstring>
+#include <limits>
 #include <map>
 #include <string>
 #include <tuple>
@@ -19,13 +20,14 @@ namespace c09
         size_t max_elems = 5;  // typical container size bound
         bool big = false;      // allow one big leaf (up to 65535) - thorough tier / boundary probes
         int depth = 0;
+        bool specials = false; // floating point: NaN, infinities, -0.0, denormal, max among the values
     };
 
     template <class T, class = void> struct Ref;
 
     template <class T> struct Ref<T, std::enable_if_t<std::is_arithmetic<T>::value>>
     {
-        static T gen(kit::Rng &r, GenCfg &)
+        static T gen(kit::Rng &r, GenCfg &c)
         {
             // boundary-biased bit patterns
             uint64_t bits;
@@ -40,8 +42,22 @@ namespace c09
             T v;
             if (std::is_floating_point<T>::value)
             {
-                double d = r.chance(1, 4) ? 0.0 : (double)(int64_t)(bits % 2000001) / 8.0 - 125000.0; // exactly representable, no NaN (NaN != NaN)
+                double d = r.chance(1, 4) ? 0.0 : (double)(int64_t)(bits % 2000001) / 8.0 - 125000.0; // exactly representable
                 v = (T)d;
+                if (c.specials && r.chance(1, 8)) // (off for the golden cases: their values were drawn without this choice)
+                {
+                    // special values: the wire image is the object image, so they round-trip bit for bit (eq compares images first)
+                    switch (r.below(7))
+                    {
+                    case 0: v = std::numeric_limits<T>::quiet_NaN(); break;
+                    case 1: v = -std::numeric_limits<T>::quiet_NaN(); break;
+                    case 2: v = std::numeric_limits<T>::infinity(); break;
+                    case 3: v = -std::numeric_limits<T>::infinity(); break;
+                    case 4: v = (T)-0.0; break;
+                    case 5: v = std::numeric_limits<T>::denorm_min(); break;
+                    default: v = std::numeric_limits<T>::max(); break;
+                    }
+                }
             }
             else if (std::is_same<T, bool>::value)
                 v = (T)(bits & 1);
